@@ -26,7 +26,8 @@ import (
 	"mosn.io/pkg/buffer"
 )
 
-var attemptTok = regexp.MustCompile(`^a[0-9]+$`)
+// a<k>: upstream attempt k; f<i>: stream filter i (C14)
+var attemptTok = regexp.MustCompile(`^[af][0-9]+$`)
 
 func tokOfHeaders(h api.HeaderMap) string {
 	if h == nil {
